@@ -98,6 +98,109 @@ theorem stepCheck_pause (d : DState) (depth : Nat) (h : (stepCheck d depth).2 = 
 
 
 
+/-! ### breakpoints: where a Breakpoint stop's generation comes from -/
+
+theorem bpOutcome_pause_file (bp : Bp) (loc : Loc) (ctx : Bool) (h : bpOutcome bp loc ctx = .pause) :
+    bp.loc.file = loc.file := by
+  unfold bpOutcome at h
+  split at h
+  · cases h
+  · rename_i hf; simpa using hf
+
+theorem matchBps_some (bps : List Bp) (loc : Loc) (ctx : Bool) (g : Nat)
+    (h : (matchBps bps loc ctx).2.2 = some g) : ∃ bp ∈ bps, bp.gen = g ∧ bp.loc.file = loc.file := by
+  induction bps with
+  | nil => simp [matchBps] at h
+  | cons bp rest ih =>
+    simp only [matchBps] at h
+    cases ho : bpOutcome bp loc ctx <;> simp only [ho] at h
+    · obtain ⟨b, hb, h1, h2⟩ := ih h; exact ⟨b, by simp [hb], h1, h2⟩
+    · obtain ⟨b, hb, h1, h2⟩ := ih h; exact ⟨b, by simp [hb], h1, h2⟩
+    · obtain ⟨b, hb, h1, h2⟩ := ih h; exact ⟨b, by simp [hb], h1, h2⟩
+    · exact ⟨bp, by simp, by simpa using h, bpOutcome_pause_file bp loc ctx ho⟩
+
+theorem matchBps_wf (bps : List Bp) (loc : Loc) (ctx : Bool) :
+    ∀ b' ∈ (matchBps bps loc ctx).1, ∃ b ∈ bps, b'.loc = b.loc ∧ b'.gen = b.gen := by
+  induction bps with
+  | nil => simp [matchBps]
+  | cons bp rest ih =>
+    intro b' hb'
+    have hrec : ∀ (x : Bp), x.loc = bp.loc → x.gen = bp.gen → b' ∈ x :: (matchBps rest loc ctx).1 →
+        ∃ b ∈ bp :: rest, b'.loc = b.loc ∧ b'.gen = b.gen := by
+      intro x hx1 hx2 hm
+      rcases List.mem_cons.1 hm with h | h
+      · exact ⟨bp, by simp, h ▸ hx1, h ▸ hx2⟩
+      · obtain ⟨b, hb, h1, h2⟩ := ih b' h; exact ⟨b, by simp [hb], h1, h2⟩
+    simp only [matchBps] at hb'
+    cases ho : bpOutcome bp loc ctx <;> simp only [ho] at hb'
+    · exact hrec bp rfl rfl hb'
+    · exact hrec { bp with hits := bp.hits + 1 } rfl rfl hb'
+    · exact hrec { bp with hits := bp.hits + 1 } rfl rfl hb'
+    · rcases List.mem_cons.1 hb' with h | h
+      · exact ⟨bp, by simp, by simp [h], by simp [h]⟩
+      · exact ⟨b', by simp [h], rfl, rfl⟩
+
+/-- Breakpoints of `e` are those of `d` up to hit counters; generations map unchanged. -/
+def BpsSame (e d : DState) : Prop :=
+  e.bpGeneration = d.bpGeneration ∧
+  ∀ b' ∈ e.breakpoints, ∃ b ∈ d.breakpoints, b'.loc = b.loc ∧ b'.gen = b.gen
+
+theorem BpsSame.refl (d : DState) : BpsSame d d := ⟨rfl, fun b hb => ⟨b, hb, rfl, rfl⟩⟩
+
+theorem BpsSame.of_eq {e d : DState} (h1 : e.bpGeneration = d.bpGeneration)
+    (h2 : e.breakpoints = d.breakpoints) : BpsSame e d :=
+  ⟨h1, fun b hb => ⟨b, h2 ▸ hb, rfl, rfl⟩⟩
+
+theorem BpsSame.trans {a b c : DState} (h1 : BpsSame a b) (h2 : BpsSame b c) : BpsSame a c := by
+  refine ⟨h1.1.trans h2.1, ?_⟩
+  intro x hx
+  obtain ⟨y, hy, e1, e2⟩ := h1.2 x hx
+  obtain ⟨z, hz, f1, f2⟩ := h2.2 y hy
+  exact ⟨z, hz, e1.trans f1, e2.trans f2⟩
+
+theorem consumePending_bps (d : DState) (tgt : Bool) (loc : Option Loc) :
+    BpsSame (consumePending d tgt loc) d := by
+  unfold consumePending
+  split
+  · split
+    · exact BpsSame.of_eq rfl rfl
+    · exact BpsSame.refl d
+  · exact BpsSame.refl d
+
+/-- `bpBlock`: either a Breakpoint stop justified by a breakpoint of the same file, or nothing. -/
+theorem bpBlock_cases (d : DState) (l : Loc) (ctx : Bool) :
+    (bpBlock d l ctx).currentThread = d.currentThread ∧
+    (bpBlock d l ctx).lastCallDepth = d.lastCallDepth ∧
+    (bpBlock d l ctx).lastCallDepths = d.lastCallDepths ∧
+    BpsSame (bpBlock d l ctx) d ∧
+    ((∃ bp ∈ d.breakpoints, bp.loc.file = l.file ∧ (bpBlock d l ctx).mode = .paused ∧
+        (bpBlock d l ctx).pendingStop = none ∧ (bpBlock d l ctx).targetThread = none ∧
+        (bpBlock d l ctx).steps = [] ∧
+        (bpBlock d l ctx).stops = d.stops ++ [⟨.breakpoint, some l, d.currentThread, some bp.gen⟩])
+     ∨ ((bpBlock d l ctx).mode = d.mode ∧ (bpBlock d l ctx).pendingStop = d.pendingStop ∧
+        (bpBlock d l ctx).targetThread = d.targetThread ∧ (bpBlock d l ctx).stops = d.stops ∧
+        (bpBlock d l ctx).steps = d.steps)) := by
+  have hwf := matchBps_wf d.breakpoints l ctx
+  cases hm : (matchBps d.breakpoints l ctx).2.2 with
+  | none =>
+    have he : bpBlock d l ctx =
+        { d with breakpoints := (matchBps d.breakpoints l ctx).1,
+                 logs := d.logs + (matchBps d.breakpoints l ctx).2.1 } := by
+      simp only [bpBlock, hm]
+    rw [he]
+    exact ⟨rfl, rfl, rfl, ⟨rfl, hwf⟩, Or.inr ⟨rfl, rfl, rfl, rfl, rfl⟩⟩
+  | some g =>
+    obtain ⟨bp, hbp, h1, h2⟩ := matchBps_some d.breakpoints l ctx g hm
+    have he : bpBlock d l ctx =
+        emitStop { d with breakpoints := (matchBps d.breakpoints l ctx).1,
+                          logs := d.logs + (matchBps d.breakpoints l ctx).2.1,
+                          steps := [], targetThread := none, mode := .paused, pendingStop := none }
+          .breakpoint (some l) (some g) := by
+      simp only [bpBlock, hm]
+    rw [he]
+    refine ⟨rfl, rfl, rfl, ⟨rfl, hwf⟩, Or.inl ⟨bp, hbp, h2, rfl, rfl, rfl, rfl, ?_⟩⟩
+    simp [emitStop, h1]
+
 /-- The three ways out of the `Running` block: a step stop, a breakpoint stop, or nothing. -/
 theorem runningBlock_cases (d : DState) (tgt : Bool) (l : Loc) (depth : Nat) (ctx : Bool) :
     (runningBlock d tgt l depth ctx).currentThread = d.currentThread ∧
@@ -115,19 +218,32 @@ theorem runningBlock_cases (d : DState) (tgt : Bool) (l : Loc) (depth : Nat) (ct
         (runningBlock d tgt l depth ctx).targetThread = d.targetThread ∧
         (runningBlock d tgt l depth ctx).stops = d.stops)) := by
   obtain ⟨st', hf⟩ := stepCheck_frame d depth
+  have hb : ∀ (d1 : DState), d1.currentThread = d.currentThread → d1.mode = d.mode →
+      d1.pendingStop = d.pendingStop → d1.targetThread = d.targetThread → d1.stops = d.stops →
+      (bpBlock d1 l ctx).currentThread = d.currentThread ∧
+      ((∃ g, (bpBlock d1 l ctx).mode = .paused ∧ (bpBlock d1 l ctx).pendingStop = none ∧
+          (bpBlock d1 l ctx).targetThread = none ∧
+          (bpBlock d1 l ctx).stops = d.stops ++ [⟨.breakpoint, some l, d.currentThread, some g⟩])
+       ∨ ((bpBlock d1 l ctx).mode = d.mode ∧ (bpBlock d1 l ctx).pendingStop = d.pendingStop ∧
+          (bpBlock d1 l ctx).targetThread = d.targetThread ∧ (bpBlock d1 l ctx).stops = d.stops)) := by
+    intro d1 e1 e2 e3 e4 e5
+    obtain ⟨c1, _, _, _, c⟩ := bpBlock_cases d1 l ctx
+    refine ⟨c1.trans e1, ?_⟩
+    rcases c with ⟨bp, _, _, k1, k2, k3, _, k5⟩ | ⟨k1, k2, k3, k4, _⟩
+    · exact Or.inl ⟨bp.gen, k1, k2, k3, by rw [k5, e5, e1]⟩
+    · exact Or.inr ⟨k1.trans e2, k2.trans e3, k3.trans e4, k4.trans e5⟩
   cases tgt
   · -- not the target thread: no step check
     simp only [runningBlock, Bool.false_eq_true, if_false]
-    split
-    · simp [emitStop]
-    · simp
+    obtain ⟨h0, h⟩ := hb d rfl rfl rfl rfl rfl
+    exact ⟨h0, Or.inr h⟩
   · simp only [runningBlock, if_true]
     by_cases hs : (stepCheck d depth).2 = true
     · simp [hs, hf, emitStop]
-    · simp only [hs, Bool.false_eq_true, if_false, hf]
-      split
-      · simp [emitStop]
-      · simp
+    · simp only [hs, Bool.false_eq_true, if_false]
+      obtain ⟨h0, h⟩ := hb (stepCheck d depth).1 (by simp [hf]) (by simp [hf]) (by simp [hf]) (by simp [hf])
+        (by simp [hf])
+      exact ⟨h0, Or.inr h⟩
 
 @[simp] theorem recordHook_mode (d : DState) (loc : Option Loc) (n : Nat) : (recordHook d loc n).mode = d.mode := rfl
 @[simp] theorem recordHook_pending (d : DState) (loc : Option Loc) (n : Nat) : (recordHook d loc n).pendingStop = d.pendingStop := rfl
@@ -136,7 +252,8 @@ theorem runningBlock_cases (d : DState) (tgt : Bool) (l : Loc) (depth : Nat) (ct
 @[simp] theorem recordHook_stops (d : DState) (loc : Option Loc) (n : Nat) : (recordHook d loc n).stops = d.stops := rfl
 @[simp] theorem recordHook_steps (d : DState) (loc : Option Loc) (n : Nat) : (recordHook d loc n).steps = d.steps := rfl
 @[simp] theorem recordHook_isTarget (d : DState) (loc : Option Loc) (n : Nat) : isTarget (recordHook d loc n) = isTarget d := rfl
-
+@[simp] theorem recordHook_breakpoints (d : DState) (loc : Option Loc) (n : Nat) : (recordHook d loc n).breakpoints = d.breakpoints := rfl
+@[simp] theorem recordHook_bpGeneration (d : DState) (loc : Option Loc) (n : Nat) : (recordHook d loc n).bpGeneration = d.bpGeneration := rfl
 
 /-- Why a stop with reason `r` was announced by a hook call at call depth `depth` from state `d`:
 a started step entry that pauses at this depth, a breakpoint, or the pending stop. -/
@@ -298,14 +415,15 @@ theorem runningBlock_depths (d : DState) (tgt : Bool) (l : Loc) (depth : Nat) (c
     (runningBlock d tgt l depth ctx).lastCallDepth = d.lastCallDepth ∧
     (runningBlock d tgt l depth ctx).lastCallDepths = d.lastCallDepths := by
   obtain ⟨st', hf⟩ := stepCheck_frame d depth
-  unfold runningBlock
   cases tgt
-  · simp only [Bool.false_eq_true, if_false]
-    split <;> simp [emitStop]
-  · simp only [if_true]
+  · simp only [runningBlock, Bool.false_eq_true, if_false]
+    obtain ⟨_, c2, c3, _⟩ := bpBlock_cases d l ctx
+    exact ⟨c2, c3⟩
+  · simp only [runningBlock, if_true]
     split
     · simp [emitStop, hf]
-    · split <;> simp [emitStop, hf]
+    · obtain ⟨_, c2, c3, _⟩ := bpBlock_cases (stepCheck d depth).1 l ctx
+      exact ⟨c2.trans (by simp [hf]), c3.trans (by simp [hf])⟩
 
 theorem hookBody_depths (d : DState) (tgt : Bool) (loc : Option Loc) (depth : Nat) (ctx : Bool) :
     (hookBody d tgt loc depth ctx).lastCallDepth = d.lastCallDepth ∧
@@ -680,18 +798,19 @@ theorem stepCheck_steps (d : DState) (depth : Nat) : StepsFrom (stepCheck d dept
 theorem runningBlock_steps (d : DState) (tgt : Bool) (l : Loc) (depth : Nat) (ctx : Bool) :
     StepsFrom (runningBlock d tgt l depth ctx).steps d.steps := by
   have hs := stepCheck_steps d depth
-  unfold runningBlock
+  have hb : ∀ d1 : DState, StepsFrom (bpBlock d1 l ctx).steps d1.steps := by
+    intro d1
+    obtain ⟨_, _, _, _, c⟩ := bpBlock_cases d1 l ctx
+    rcases c with ⟨_, _, _, _, _, _, k, _⟩ | ⟨_, _, _, _, k⟩
+    · rw [k]; exact StepsFrom.nil _
+    · rw [k]; exact StepsFrom.refl _
   cases tgt
-  · simp only [Bool.false_eq_true, if_false]
-    split
-    · exact StepsFrom.nil _
-    · exact StepsFrom.refl _
-  · simp only [if_true]
+  · simp only [runningBlock, Bool.false_eq_true, if_false]
+    exact hb d
+  · simp only [runningBlock, if_true]
     split
     · simpa [emitStop] using hs
-    · split
-      · exact StepsFrom.nil _
-      · simpa using hs
+    · exact (hb _).trans hs
 
 theorem hookBody_steps (d : DState) (tgt : Bool) (loc : Option Loc) (depth : Nat) (ctx : Bool) :
     StepsFrom (hookBody d tgt loc depth ctx).steps d.steps := by
@@ -875,6 +994,511 @@ theorem stepIn_then_hook (d : DState) (th : Option Nat) (hth : th = none ∨ th 
     simp [onStatement, hookEntry, hookBody, recordHook, applyAction, armStep, ho, hc, hm, isTarget,
       consumePending, runningBlock, stepCheck, stepKey, acontains, alookup, StepState.pausesAt, emitStop,
       hookLoop, aerase]
+
+/-! ### adapter layer: provenance of breakpoint stops -/
+/-- Provenance of a Breakpoint stop: a breakpoint of the statement's file with that generation. -/
+def BpProv (d : DState) (loc : Option Loc) (st : Stop) : Prop :=
+  st.reason = .breakpoint →
+    ∃ l bp, loc = some l ∧ st.loc = some l ∧ bp ∈ d.breakpoints ∧ st.gen = some bp.gen ∧ bp.loc.file = l.file
+
+theorem runningBlock_bps (d : DState) (tgt : Bool) (l : Loc) (depth : Nat) (ctx : Bool) :
+    BpsSame (runningBlock d tgt l depth ctx) d ∧
+    ∀ st, (runningBlock d tgt l depth ctx).stops = d.stops ++ [st] → BpProv d (some l) st := by
+  obtain ⟨st', hf⟩ := stepCheck_frame d depth
+  have hb : ∀ (d1 : DState), d1.breakpoints = d.breakpoints → d1.bpGeneration = d.bpGeneration →
+      d1.stops = d.stops → d1.currentThread = d.currentThread →
+      BpsSame (bpBlock d1 l ctx) d ∧
+      ∀ st, (bpBlock d1 l ctx).stops = d.stops ++ [st] → BpProv d (some l) st := by
+    intro d1 e1 e2 e3 e4
+    obtain ⟨_, _, _, c4, c⟩ := bpBlock_cases d1 l ctx
+    refine ⟨c4.trans (BpsSame.of_eq e2 e1), ?_⟩
+    intro st hst _
+    rcases c with ⟨bp, hbp, hfile, _, _, _, _, k⟩ | ⟨_, _, _, k, _⟩
+    · rw [k, e3] at hst
+      simp at hst
+      subst hst
+      exact ⟨l, bp, rfl, rfl, e1 ▸ hbp, rfl, hfile⟩
+    · rw [k, e3] at hst
+      simp at hst
+  cases tgt
+  · simpa [runningBlock] using hb d rfl rfl rfl rfl
+  · by_cases hsp : (stepCheck d depth).2 = true
+    · refine ⟨?_, ?_⟩
+      · simp only [runningBlock, if_true, hsp]
+        exact BpsSame.of_eq (by simp [emitStop, hf]) (by simp [emitStop, hf])
+      · intro st hst hr
+        simp [runningBlock, hsp, emitStop, hf] at hst
+        subst hst
+        cases hr
+    · have := hb (stepCheck d depth).1 (by simp [hf]) (by simp [hf]) (by simp [hf]) (by simp [hf])
+      simpa [runningBlock, hsp] using this
+
+theorem hookBody_bps (d : DState) (tgt : Bool) (loc : Option Loc) (depth : Nat) (ctx : Bool)
+    (hpk : PendingKind d) :
+    BpsSame (hookBody d tgt loc depth ctx) d ∧
+    ∀ st, (hookBody d tgt loc depth ctx).stops = d.stops ++ [st] → BpProv d loc st := by
+  -- the state after `consumePending`: same breakpoints; stops either unchanged or one pending stop
+  have hc := consumePending_bps d tgt loc
+  have hcs : (consumePending d tgt loc).stops = d.stops ∨
+      ∃ r, d.pendingStop = some r ∧ (consumePending d tgt loc).stops = d.stops ++ [⟨r, loc, d.currentThread, none⟩] := by
+    unfold consumePending
+    split
+    · cases hp : d.pendingStop with
+      | none => left; rfl
+      | some r => right; exact ⟨r, rfl, by simp [emitStop]⟩
+    · left; rfl
+  have hnone : ∀ st, (consumePending d tgt loc).stops = d.stops ++ [st] → BpProv d loc st := by
+    intro st hst hr
+    rcases hcs with h | ⟨r, hp, h⟩
+    · rw [h] at hst; simp at hst
+    · rw [h] at hst
+      simp at hst
+      subst hst
+      rcases hpk r hp with h' | h' <;> (rw [h'] at hr; cases hr)
+  cases loc with
+  | none =>
+    simp only [hookBody]
+    split
+    · rename_i h; cases h
+    · exact ⟨hc, hnone⟩
+  | some l =>
+    simp only [hookBody]
+    split
+    · rename_i h
+      cases h
+      rename_i heff
+      -- Running block reached: `consumePending` emitted nothing (mode running or not the target)
+      have hsame : (consumePending d tgt (some l)).stops = d.stops := by
+        rcases hcs with h | ⟨r, hp, h⟩
+        · exact h
+        · exfalso
+          -- a pending stop was consumed, so mode = paused ∧ tgt, hence eff = paused
+          unfold consumePending at h heff
+          split at h
+          · rename_i hcond
+            simp only [hp] at h heff
+            have hm : d.mode = .paused := by
+              cases hm : d.mode <;> simp_all
+            have ht : tgt = true := by cases tgt <;> simp_all
+            simp [ht, emitStop, hm] at heff
+          · simp at h
+      obtain ⟨r1, r2⟩ := runningBlock_bps (consumePending d tgt (some l)) tgt l depth ctx
+      refine ⟨r1.trans hc, ?_⟩
+      intro st hst hr
+      obtain ⟨l', bp, e1, e2, e3, e4, e5⟩ := r2 st (by rw [hsame]; exact hst) hr
+      obtain ⟨b, hb, f1, f2⟩ := hc.2 bp e3
+      exact ⟨l', b, e1, e2, hb, by rw [e4, f2], by rw [← f1]; exact e5⟩
+    · exact ⟨hc, hnone⟩
+
+theorem hookLoop_bps (d : DState) (loc : Option Loc) : BpsSame (hookLoop d loc).1 d := by
+  rw [hookLoop_fst]; exact consumePending_bps d _ loc
+
+theorem onStatement_bps (d : DState) (loc : Option Loc) (depth : Nat) (ctx : Bool) (hpk : PendingKind d) :
+    BpsSame (onStatement d loc depth ctx).1 d := by
+  unfold onStatement hookEntry
+  have hpk' : PendingKind (recordHook d loc depth) := hpk
+  have h1 := (hookBody_bps (recordHook d loc depth) (isTarget (recordHook d loc depth)) loc depth ctx hpk').1
+  have h2 := hookLoop_bps (hookBody (recordHook d loc depth) (isTarget (recordHook d loc depth)) loc depth ctx) loc
+  exact h2.trans (h1.trans (BpsSame.of_eq rfl rfl))
+
+/-- A stop announced by a parking hook call has breakpoint provenance. -/
+theorem onStatement_prov (d : DState) (loc : Option Loc) (depth : Nat) (ctx : Bool) (hpk : PendingKind d)
+    (hidle : d.mode = .paused → d.pendingStop ≠ none) (st : Stop)
+    (h : (onStatement d loc depth ctx).1.stops = d.stops ++ [st]) : BpProv d loc st := by
+  have hpk' : PendingKind (recordHook d loc depth) := hpk
+  have hb := (hookBody_bps (recordHook d loc depth) (isTarget (recordHook d loc depth)) loc depth ctx hpk').2
+  -- the wait loop adds nothing when the hook body already announced a stop, and when it did not,
+  -- `onStatement_cases` says no stop at all
+  rcases onStatement_cases d loc depth ctx hidle with ⟨_, _, _, _, r, g, h5, _⟩ | ⟨_, h2, _⟩
+  · rcases (hookEntry_cases d loc depth ctx).2 with ⟨_, e2, _, r', g', e4, _⟩ | ⟨_, _, _, e4, _⟩
+    · -- hook body announced it
+      have : (hookEntry d loc depth ctx).stops = d.stops ++ [st] := by
+        rcases hookLoop_cases (hookEntry d loc depth ctx) loc with ⟨_, k2, _⟩ | ⟨_, _, _, _, _, _, _, k | ⟨r'', k, _⟩⟩
+        · unfold onStatement at h; rw [k2] at h; exact h
+        · unfold onStatement at h; rw [k.2] at h; exact h
+        · simp [e2] at k
+      intro hr
+      obtain ⟨l, bp, a1, a2, a3, a4, a5⟩ := hb st (by simpa [hookEntry] using this) hr
+      exact ⟨l, bp, a1, a2, by simpa using a3, a4, a5⟩
+    · -- hook body announced nothing: the stop is the pending one, consumed in the loop
+      intro hr
+      rcases hookLoop_cases (hookEntry d loc depth ctx) loc with ⟨_, k2, _⟩ | ⟨_, _, _, _, _, _, kc, k | ⟨r'', k, k'⟩⟩
+      · unfold onStatement at h; rw [k2, e4] at h; simp at h
+      · unfold onStatement at h; rw [k.2, e4] at h; simp at h
+      · unfold onStatement at h
+        rw [k', e4] at h
+        simp at h
+        subst h
+        have hpk2 : PendingKind (hookEntry d loc depth ctx) := by
+          intro x hx
+          rcases (hookEntry_cases d loc depth ctx).2 with ⟨_, p2, _⟩ | ⟨_, p2, _⟩
+          · simp [p2] at hx
+          · exact hpk x (p2 ▸ hx)
+        rcases hpk2 r'' k with h' | h' <;> (simp only at hr; rw [h'] at hr; cases hr)
+  · rw [h2] at h; simp at h
+
+theorem applyAction_bps (d : DState) (a : Action) :
+    (applyAction d a).1.breakpoints = d.breakpoints ∧ (applyAction d a).1.bpGeneration = d.bpGeneration := by
+  cases a <;> simp [applyAction, armStep] <;> split <;> simp
+
+/-! ### adapter layer: the invariant behind the partial theorem -/
+/-- Processing the whole channel in order, starting with flag `pe`: is some stop emitted? -/
+def willEmit (gens : List (Nat × Nat)) : Bool → List Stop → Bool
+  | _, [] => false
+  | pe, st :: rest => (shouldEmitStop st pe gens).1 || willEmit gens (shouldEmitStop st pe gens).2 rest
+
+/-- A Breakpoint stop whose generation is the current one of its file. -/
+def StopFresh (gens : List (Nat × Nat)) (st : Stop) : Prop :=
+  st.reason = .breakpoint → ∃ l g, st.loc = some l ∧ st.gen = some g ∧ alookup gens l.file = some g
+
+def BpsWF (d : DState) : Prop :=
+  ∀ bp ∈ d.breakpoints, alookup d.bpGeneration bp.loc.file = some bp.gen
+
+theorem shouldEmit_snd (st : Stop) (pe : Bool) (gens : List (Nat × Nat)) :
+    (shouldEmitStop st pe gens).2 = false := by
+  unfold shouldEmitStop
+  cases st.reason <;> simp
+  cases st.loc <;> simp
+  cases st.gen <;> simp
+
+theorem shouldEmit_fresh (st : Stop) (pe : Bool) (gens : List (Nat × Nat)) (hf : StopFresh gens st)
+    (h : st.reason = .pause ∨ st.reason = .entry → pe = true) : (shouldEmitStop st pe gens).1 = true := by
+  unfold shouldEmitStop
+  cases hr : st.reason
+  · obtain ⟨l, g, h1, h2, h3⟩ := hf hr
+    simp [h1, h2, h3]
+  · simp
+  · simpa using h (Or.inl hr)
+  · simpa using h (Or.inr hr)
+
+theorem willEmit_append_always (gens : List (Nat × Nat)) (x : Stop)
+    (hx : ∀ pe, (shouldEmitStop x pe gens).1 = true) :
+    ∀ (chan : List Stop) (pe : Bool), willEmit gens pe (chan ++ [x]) = true := by
+  intro chan
+  induction chan with
+  | nil => intro pe; simp [willEmit, hx]
+  | cons st rest ih => intro pe; simp [willEmit, ih]
+
+theorem willEmit_true (gens : List (Nat × Nat)) (chan : List Stop) (hne : chan ≠ [])
+    (hf : ∀ st ∈ chan, StopFresh gens st) : willEmit gens true chan = true := by
+  cases chan with
+  | nil => exact absurd rfl hne
+  | cons st rest =>
+    simp only [willEmit]
+    rw [shouldEmit_fresh st true gens (hf st (by simp)) (fun _ => rfl)]
+    rfl
+
+theorem willEmit_gens (g1 g2 : List (Nat × Nat)) :
+    ∀ (chan : List Stop) (pe : Bool), (∀ st ∈ chan, st.reason ≠ .breakpoint) →
+      willEmit g1 pe chan = willEmit g2 pe chan := by
+  intro chan
+  induction chan with
+  | nil => intro pe _; rfl
+  | cons st rest ih =>
+    intro pe h
+    have hst : st.reason ≠ .breakpoint := h st (by simp)
+    have he : shouldEmitStop st pe g1 = shouldEmitStop st pe g2 := by
+      unfold shouldEmitStop
+      cases hr : st.reason <;> simp_all
+    simp only [willEmit, he]
+    rw [ih _ (fun s hs => h s (by simp [hs]))]
+
+/-- Invariant of the adapter-level system along runs whose `setBreakpoints` are all safe. -/
+structure AInv (s : ASys) : Prop where
+  bps : BpsWF s.d
+  fresh : ∀ st ∈ s.chan, StopFresh s.d.bpGeneration st
+  pend : s.d.pendingStop ≠ none → s.pauseExpected = true ∨ s.clientStopped = true
+  settled : s.parked = true → s.d.mode = .paused → isTarget s.d = true → s.d.pendingStop = none →
+    s.clientStopped = true ∨ willEmit s.d.bpGeneration s.pauseExpected s.chan = true
+  idle : s.parked = false → s.d.mode = .paused → s.d.pendingStop ≠ none
+  wtarget : s.parked = true → s.d.mode = .paused → s.d.pendingStop = none → isTarget s.d = true
+  pk : PendingKind s.d
+
+theorem ainv_init : AInv ASys.init := by
+  constructor <;> simp [ASys.init, DState.init, BpsWF, PendingKind]
+
+theorem BpsWF.of_same {e d : DState} (h : BpsSame e d) (hd : BpsWF d) : BpsWF e := by
+  intro b' hb'
+  obtain ⟨b, hb, e1, e2⟩ := h.2 b' hb'
+  rw [h.1, e1, e2]; exact hd b hb
+
+theorem fresh_of_prov {d : DState} {loc : Option Loc} {st : Stop} (hwf : BpsWF d)
+    (hp : BpProv d loc st) : StopFresh d.bpGeneration st := by
+  intro hr
+  obtain ⟨l, bp, _, h2, h3, h4, h5⟩ := hp hr
+  exact ⟨l, bp.gen, h2, h4, h5 ▸ hwf bp h3⟩
+
+theorem alookup_ainsert_ne {β : Type} (m : List (Nat × β)) (k k' : Nat) (v : β) (h : k' ≠ k) :
+    alookup (ainsert m k v) k' = alookup m k' := by
+  induction m with
+  | nil => simp [ainsert, alookup, Ne.symm h]
+  | cons y rest ih =>
+    obtain ⟨a, b⟩ := y
+    simp only [ainsert]
+    split
+    · rename_i hak
+      simp [alookup, hak, Ne.symm h]
+    · simp [alookup, ih]
+
+theorem setBps_wf (d : DState) (file : Nat) (bps : List Bp) (hwf : BpsWF d)
+    (hfile : ∀ bp ∈ bps, bp.loc.file = file) : BpsWF (setBreakpointsForFile d file bps) := by
+  intro bp hbp
+  simp only [setBreakpointsForFile, List.mem_append, List.mem_filter, List.mem_map] at hbp ⊢
+  rcases hbp with ⟨h1, h2⟩ | ⟨b, hb, rfl⟩
+  · have hne : bp.loc.file ≠ file := by simpa using h2
+    rw [alookup_ainsert_ne _ _ _ _ hne]
+    exact hwf bp h1
+  · simp only
+    rw [hfile b hb, alookup_ainsert_self]
+
+/-- The settled clause after a stop `x` was appended to the channel. -/
+theorem settled_append (gens : List (Nat × Nat)) (chan : List Stop) (x : Stop) (pe cs : Bool)
+    (hfresh : ∀ st ∈ chan, StopFresh gens st) (hx : StopFresh gens x)
+    (hpe : x.reason = .pause ∨ x.reason = .entry → pe = true ∨ cs = true) :
+    cs = true ∨ willEmit gens pe (chan ++ [x]) = true := by
+  by_cases hr : x.reason = .pause ∨ x.reason = .entry
+  · rcases hpe hr with h | h
+    · right
+      subst h
+      apply willEmit_true _ _ (by simp)
+      intro st hst
+      rcases List.mem_append.1 hst with h | h
+      · exact hfresh st h
+      · simp at h; subst h; exact hx
+    · exact Or.inl h
+  · right
+    apply willEmit_append_always
+    intro pe'
+    exact shouldEmit_fresh x pe' gens hx (fun h => absurd h hr)
+
+theorem ainv_hook (s : ASys) (loc : Option Loc) (depth : Nat) (h : AInv s) :
+    AInv (astep s (.hook loc depth)) := by
+  by_cases hp' : s.parked = true
+  · simpa [astep, hp'] using h
+  have hp : s.parked = false := by simpa using hp'
+  have hidle := h.idle hp
+  have hsame := onStatement_bps s.d loc depth false h.pk
+  have hwf' : BpsWF (onStatement s.d loc depth false).1 := BpsWF.of_same hsame h.bps
+  have hpk' := pendingKind_onStatement s.d loc depth false h.pk
+  have hcur := onStatement_current s.d loc depth false
+  rcases onStatement_cases s.d loc depth false hidle with ⟨h1, h2, h3, h4, r, g, h5, hw⟩ | ⟨h1, h2, h3, h4, h5, h6⟩
+  · -- parks after one stop `x`
+    have hs : astep s (.hook loc depth) =
+        { s with d := (onStatement s.d loc depth false).1, parked := true, parkLoc := loc,
+                 chan := s.chan ++ [⟨r, loc, s.d.currentThread, g⟩] } := by
+      simp [astep, hp, h1, h5]
+    have hx : StopFresh s.d.bpGeneration ⟨r, loc, s.d.currentThread, g⟩ :=
+      fresh_of_prov h.bps (onStatement_prov s.d loc depth false h.pk hidle _ h5)
+    rw [hs]
+    constructor
+    · exact hwf'
+    · intro st hst
+      simp only [hsame.1]
+      rcases List.mem_append.1 hst with hm | hm
+      · exact h.fresh st hm
+      · simp at hm; subst hm; exact hx
+    · intro hne; exact absurd h4 hne
+    · intro _ _ _ _
+      simp only [hsame.1]
+      apply settled_append _ _ _ _ _ h.fresh hx
+      intro hr
+      -- a Pause/Entry stop can only be the pending one
+      simp only at hr
+      rcases hw with ⟨hs', _⟩ | hb | hpend
+      · rcases hr with hr | hr <;> (rw [hs'] at hr; cases hr)
+      · rcases hr with hr | hr <;> (rw [hb] at hr; cases hr)
+      · exact h.pend (by simp [hpend])
+    · intro hf; cases hf
+    · intro _ _ _; exact h3
+    · exact hpk'
+  · -- comes back
+    have hs : astep s (.hook loc depth) =
+        { s with d := (onStatement s.d loc depth false).1, parked := false, parkLoc := loc } := by
+      simp [astep, hp, h1, h2]
+    rw [hs]
+    constructor
+    · exact hwf'
+    · intro st hst; simp only [hsame.1]; exact h.fresh st hst
+    · intro hne; exact h.pend (h4 ▸ hne)
+    · intro hf; cases hf
+    · intro _ hm; rw [h4]; exact hidle (h3 ▸ hm)
+    · intro hf; cases hf
+    · exact hpk'
+
+theorem ainv_wake (s : ASys) (h : AInv s) : AInv (astep s .wake) := by
+  cases hp : s.parked
+  · simpa [astep, hp] using h
+  have hsame := hookLoop_bps s.d s.parkLoc
+  have hwf' : BpsWF (hookLoop s.d s.parkLoc).1 := BpsWF.of_same hsame h.bps
+  have hpk' := pendingKind_hookLoop s.d s.parkLoc h.pk
+  rcases hookLoop_cases s.d s.parkLoc with ⟨k1, k2, k3⟩ | ⟨k1, km, kt, k4, k5, k6, k7, k | ⟨r, k, k'⟩⟩
+  · -- leaves the hook, state unchanged
+    have hs : astep s .wake = { s with parked := false } := by
+      simp [astep, hp, k1, k2]
+    rw [hs]
+    constructor
+    · exact h.bps
+    · exact h.fresh
+    · exact h.pend
+    · intro hf; cases hf
+    · intro _ hm hpn
+      rcases k3 with k3 | k3
+      · rw [k3] at hm; cases hm
+      · have := h.wtarget hp hm hpn
+        rw [this] at k3; cases k3
+    · intro hf; cases hf
+    · exact h.pk
+  · -- nothing pending: nothing changes
+    have hs : astep s .wake = s := by
+      cases s
+      simp_all [astep]
+    rw [hs]; exact h
+  · -- the pending stop is announced, the thread parks again
+    have hs : astep s .wake =
+        { s with d := (hookLoop s.d s.parkLoc).1, parked := true,
+                 chan := s.chan ++ [⟨r, s.parkLoc, s.d.currentThread, none⟩] } := by
+      simp [astep, hp, k1, k']
+    have hx : StopFresh s.d.bpGeneration ⟨r, s.parkLoc, s.d.currentThread, none⟩ := by
+      intro hr
+      rcases h.pk r k with h' | h' <;> (simp only at hr; rw [h'] at hr; cases hr)
+    rw [hs]
+    constructor
+    · exact hwf'
+    · intro st hst
+      simp only [hsame.1]
+      rcases List.mem_append.1 hst with hm | hm
+      · exact h.fresh st hm
+      · simp at hm; subst hm; exact hx
+    · intro hne; exact absurd k6 hne
+    · intro _ _ _ _
+      simp only [hsame.1]
+      apply settled_append _ _ _ _ _ h.fresh hx
+      intro _
+      exact h.pend (by simp [k])
+    · intro hf; cases hf
+    · intro _ _ _; exact k5
+    · exact hpk'
+
+theorem ainv_resume (s : ASys) (a : Action) (ha : a.isResume = true) (pe : Bool) (h : AInv s) :
+    AInv { s with pauseExpected := pe, d := (applyAction s.d a).1, clientStopped := false } := by
+  obtain ⟨r1, r2, _, _, _⟩ := applyAction_resume_mode s.d a ha
+  obtain ⟨b1, b2⟩ := applyAction_bps s.d a
+  constructor
+  · intro bp hbp; simp only [b1, b2] at hbp ⊢; exact h.bps bp hbp
+  · intro st hst; simp only [b2]; exact h.fresh st hst
+  · intro hne; exact absurd r2 hne
+  · intro _ hm; simp only at hm; rw [r1] at hm; cases hm
+  · intro _ hm; simp only at hm; rw [r1] at hm; cases hm
+  · intro _ hm; simp only at hm; rw [r1] at hm; cases hm
+  · exact pendingKind_of_none r2
+
+theorem ainv_step (s : ASys) (l : ALabel) (h : AInv s) (hok : s.okLabel l = true) :
+    AInv (astep s l) := by
+  cases l with
+  | hook loc depth => exact ainv_hook s loc depth h
+  | wake => exact ainv_wake s h
+  | reqPause =>
+    rcases applyAction_pause_cases s.d none with ⟨hm, _⟩ | ⟨hm, e1, e2, _⟩
+    · simpa [astep, hm] using h
+    · obtain ⟨b1, b2⟩ := applyAction_bps s.d (.pause none)
+      have hs : astep s .reqPause = { s with pauseExpected := true, d := (applyAction s.d (.pause none)).1 } := by
+        simp [astep, hm]
+      rw [hs]
+      constructor
+      · intro bp hbp; simp only [b1, b2] at hbp ⊢; exact h.bps bp hbp
+      · intro st hst; simp only [b2]; exact h.fresh st hst
+      · intro _; exact Or.inl rfl
+      · intro _ _ _ hpn; simp only at hpn; rw [e2] at hpn; cases hpn
+      · intro _ _; simp [e2]
+      · intro _ _ hpn; simp only at hpn; rw [e2] at hpn; cases hpn
+      · exact pendingKind_applyAction s.d _ h.pk
+  | reqContinue => exact ainv_resume s .continue_ rfl false h
+  | reqStep a =>
+    cases ha : a.isStep
+    · simpa [astep, ha] using h
+    · have hr : a.isResume = true := by cases a <;> simp_all [Action.isStep, Action.isResume]
+      have hs : astep s (.reqStep a) = { s with pauseExpected := s.pauseExpected, d := (applyAction s.d a).1, clientStopped := false } := by
+        simp [astep, ha]
+      rw [hs]; exact ainv_resume s a hr s.pauseExpected h
+  | reqSetBps file bps =>
+    simp only [ASys.okLabel, Bool.and_eq_true, List.all_eq_true] at hok
+    obtain ⟨hfile, hchan⟩ := hok
+    have hnb : ∀ st ∈ s.chan, st.reason ≠ .breakpoint := by
+      intro st hst; simpa using hchan st hst
+    have hs : astep s (.reqSetBps file bps) = { s with d := setBreakpointsForFile s.d file bps } := rfl
+    rw [hs]
+    constructor
+    · exact setBps_wf s.d file bps h.bps (fun bp hbp => by simpa using hfile bp hbp)
+    · intro st hst hr; exact absurd hr (hnb st hst)
+    · exact h.pend
+    · intro a1 a2 a3 a4
+      rcases h.settled a1 a2 a3 a4 with hc | hc
+      · exact Or.inl hc
+      · right
+        rw [← hc]
+        exact willEmit_gens _ _ _ _ hnb
+    · exact h.idle
+    · exact h.wtarget
+    · exact h.pk
+  | coord =>
+    cases hc : s.chan with
+    | nil => simpa [astep, hc] using h
+    | cons st rest =>
+      have hs : astep s .coord =
+          { s with chan := rest, pauseExpected := (shouldEmitStop st s.pauseExpected s.d.bpGeneration).2,
+                   emitted := if (shouldEmitStop st s.pauseExpected s.d.bpGeneration).1 then s.emitted ++ [st] else s.emitted,
+                   clientStopped := s.clientStopped || (shouldEmitStop st s.pauseExpected s.d.bpGeneration).1 } := by
+        simp [astep, hc]
+      have hfst : StopFresh s.d.bpGeneration st := h.fresh st (by simp [hc])
+      rw [hs]
+      constructor
+      · exact h.bps
+      · intro x hx; exact h.fresh x (by simp [hc, hx])
+      · intro hne
+        right
+        rcases h.pend hne with hpe | hcs
+        · simp [shouldEmit_fresh st s.pauseExpected _ hfst (fun _ => hpe)]
+        · simp [hcs]
+      · intro a1 a2 a3 a4
+        rcases h.settled a1 a2 a3 a4 with hcs | hwe
+        · left; simp [hcs]
+        · rw [hc] at hwe
+          simp only [willEmit, Bool.or_eq_true] at hwe
+          rcases hwe with hwe | hwe
+          · left; simp [hwe]
+          · right; exact hwe
+      · exact h.idle
+      · exact h.wtarget
+      · exact h.pk
+
+theorem ainv_exec (ls : List ALabel) : ∀ (s : ASys), AInv s → s.runOk ls = true → AInv (aexec s ls) := by
+  induction ls with
+  | nil => intro s h _; exact h
+  | cons l ls ih =>
+    intro s h hok
+    simp only [ASys.runOk, Bool.and_eq_true] at hok
+    exact ih _ (ainv_step s l h hok.1) hok.2
+
+theorem told_of_ainv (s : ASys) (h : AInv s) : s.told = true := by
+  simp only [ASys.told, ASys.quiescentParked, Bool.or_eq_true, Bool.not_eq_true', Bool.and_eq_false_iff,
+    decide_eq_false_iff_not]
+  by_cases hq : s.parked = true ∧ s.chan.isEmpty = true ∧ hookLoop s.d s.parkLoc = (s.d, false)
+  · right
+    obtain ⟨hp, hc, hl⟩ := hq
+    rcases hookLoop_cases s.d s.parkLoc with ⟨k1, _⟩ | ⟨_, km, kt, _, _, _, _, k | ⟨r, k, k'⟩⟩
+    · rw [hl] at k1; cases k1
+    · have hce : s.chan = [] := by simpa using hc
+      rcases h.settled hp km kt k.1 with hcs | hwe
+      · exact hcs
+      · rw [hce] at hwe; simp [willEmit] at hwe
+    · rw [hl] at k'; simp at k'
+  · left
+    by_cases hp : s.parked = true
+    · by_cases hc : s.chan.isEmpty = true
+      · right
+        intro hl; exact hq ⟨hp, hc, hl⟩
+      · left; right; simpa using hc
+    · left; left; simpa using hp
 
 /-! ### a concrete program for the non-vacuity examples -/
 
